@@ -164,24 +164,35 @@ def rule_metric_value(ctx: Ctx) -> None:
                 if norm(l_) == subj and isinstance(r_, ast.Constant):
                     return r_.value
             return None
-        cur = [i for i in fn.body if isinstance(i, ast.If) and lit_of(i.test, "self.target.rep_type") is not None]
+        cur = [i for i in fn.body if isinstance(i, ast.If) and "self.target.rep_type" in norm(i.test)]
         if len(cur) != 1:
             raise AnalysisError(f"{q}: the dispatch on self.target.rep_type was not found")
         node = cur[0]
         nbr = 0
         while isinstance(node, ast.If):
-            L = lit_of(node.test, "self.target.rep_type")
+            nt_, arm_, rest_ = node.test, node.body, node.orelse
+            if isinstance(nt_, ast.UnaryOp) and isinstance(nt_.op, ast.Not):
+                nt_, arm_, rest_ = nt_.operand, rest_, arm_
+            elif isinstance(nt_, ast.Compare) and len(nt_.ops) == 1 and isinstance(nt_.ops[0], ast.NotEq):
+                nt_, arm_, rest_ = ast.Compare(left=nt_.left, ops=[ast.Eq()], comparators=nt_.comparators), rest_, arm_
+            L = lit_of(nt_, "self.target.rep_type")
             if L is None:
                 raise AnalysisError(f"{q}: test `{short(node.test)}` of the representation dispatch not recognised")
             nbr += 1
-            inner = [i for i in node.body if isinstance(i, ast.If) and f"{sp}.rep_type" in norm(i.test)]
+            inner = [i for i in arm_ if isinstance(i, ast.If) and f"{sp}.rep_type" in norm(i.test)]
             if len(inner) != 1:
                 raise AnalysisError(f"{q}: branch {L!r}: the test of the state's representation was not found")
-            L2 = lit_of(inner[0].test, f"{sp}.rep_type")
+            it_, direct_arm, conv_arm = inner[0].test, inner[0].body, inner[0].orelse
+            if isinstance(it_, ast.UnaryOp) and isinstance(it_.op, ast.Not):
+                it_, direct_arm, conv_arm = it_.operand, conv_arm, direct_arm
+            elif isinstance(it_, ast.Compare) and len(it_.ops) == 1 and isinstance(it_.ops[0], ast.NotEq):
+                it_ = ast.Compare(left=it_.left, ops=[ast.Eq()], comparators=it_.comparators)
+                direct_arm, conv_arm = conv_arm, direct_arm
+            L2 = lit_of(it_, f"{sp}.rep_type")
             if L2 is None:
                 raise AnalysisError(f"{q}: branch {L!r}: test `{short(inner[0].test)}` not recognised")
-            conv = [c for st in inner[0].orelse for c in calls_in(st) if call_attr(c) == "convert_representation"]
-            direct_conv = [c for st in inner[0].body for c in calls_in(st) if call_attr(c) == "convert_representation"]
+            conv = [c for st in conv_arm for c in calls_in(st) if call_attr(c) == "convert_representation"]
+            direct_conv = [c for st in direct_arm for c in calls_in(st) if call_attr(c) == "convert_representation"]
             why = None
             if L2 != L:
                 why = f"the state is used unconverted when its representation is {L2!r}, in the branch for a {L!r} target"
@@ -191,7 +202,7 @@ def rule_metric_value(ctx: Ctx) -> None:
                 ctx.fail("metric.value", m, inner[0], f"{q}: {why}", func=q, construct=f"{q}: branch {L}: {why[:50]}")
             else:
                 ctx.ok("metric.value", m, inner[0], what=f"{q}: branch {L!r}: direct use iff state is {L!r}, else copy converted to {L!r}")
-            node = node.orelse[0] if len(node.orelse) == 1 and isinstance(node.orelse[0], ast.If) else None
+            node = rest_[0] if len(rest_) == 1 and isinstance(rest_[0], ast.If) else None
     ctx.floor("metric.value", 5)
 
 
